@@ -76,11 +76,14 @@ class ExceptIf(ConclusionSelector):
         if not child:
             child = self.left
         required_vars = HashedIterable()
-        when_false = not when_true
+        # (None: the truth of the child's output is not known yet, a conjunction can still turn false on its right side)
+        when_asked, when_false = when_true, not when_true
+        when_true = when_true or when_true is None
         if child is self.left:
             if when_true:
                 required_vars.update(self.right._unique_variables_)
-            for conc in self.left._conclusion_.union(self.right._conclusion_):
+            # (the refinement can have branches of its own, whose conclusions sit on the nodes below it)
+            for conc in self.left._conclusion_.union(self.right._conclusion_, self.right._conclusions_of_all_descendants_):
                 required_vars.update(conc._unique_variables_)
         elif child is self.right:
             if when_true:
@@ -89,7 +92,7 @@ class ExceptIf(ConclusionSelector):
             if when_false and not self.left._is_false_:
                 for conc in self.left._conclusion_:
                     required_vars.update(conc._unique_variables_)
-        required_vars.update(self._parent_._required_variables_from_child_(self, when_true))
+        required_vars.update(self._parent_._required_variables_from_child_(self, when_asked))
         for conc in self._conclusion_:
             required_vars.update(conc._unique_variables_)
         return required_vars
